@@ -7,6 +7,7 @@ package main
 
 import (
 	"fmt"
+	"go/types"
 	"math/big"
 
 	"golang.org/x/tools/go/ssa"
@@ -151,6 +152,13 @@ func (in *Interp) frWrite(p Ptr, t *Term) {
 		arr.E[i] = BVConst(0, w)
 	}
 	in.store(p, arr)
+}
+
+// frValue builds an element value of type t holding v in word 0
+func (in *Interp) frValue(t types.Type, v *Term) Val {
+	arr := in.zero(t).(*ArrayV)
+	arr.E[0] = v
+	return arr
 }
 
 func (in *Interp) frConst(p Val, v int64) *Term {
